@@ -11,6 +11,17 @@ pub trait VC: Codec + 'static + std::panic::RefUnwindSafe + std::panic::UnwindSa
     fn sym_comp(self) -> Option<Self> {
         None
     }
+    /// the symbol-level `Complement::to_comp` / `Maskable::to_mask`, where the codec has them
+    fn sym_to_comp(self) -> Option<Self> {
+        None
+    }
+    fn sym_to_mask(self) -> Option<(Self, Self)> {
+        None
+    }
+    /// `u8::from(symbol)`, where the codec has it
+    fn sym_into_u8(self) -> Option<u8> {
+        None
+    }
     fn sym_mask(self) -> Option<Self> {
         None
     }
@@ -51,32 +62,68 @@ pub trait VC: Codec + 'static + std::panic::RefUnwindSafe + std::panic::UnwindSa
     }
 }
 
+/// same length and same symbol codes (read through the slice iterator)
+pub fn same_codes<A: Codec>(a: &SeqSlice<A>, b: &SeqSlice<A>) -> bool {
+    a.len() == b.len() && a.iter().map(|x| x.to_bits()).eq(b.iter().map(|x| x.to_bits()))
+}
+
+/// a call through a trait bound only (what generic user code does)
+pub fn via_trait_comp<T: ComplementMut>(x: &mut T) {
+    x.comp()
+}
+
 macro_rules! comp_impl {
     () => {
         fn sym_comp(self) -> Option<Self> {
             let mut x = self;
             x.comp();
+            let mut y = self;
+            <Self as ComplementMut>::comp(&mut y);
+            assert!(x.to_bits() == y.to_bits(), "symbol comp: method call and trait call differ");
+            if let Some(z) = self.sym_to_comp() {
+                assert!(z.to_bits() == x.to_bits(), "symbol to_comp differs from comp");
+            }
             Some(x)
         }
         fn seq_comp(s: &mut Seq<Self>) -> bool {
+            let mut t = s.clone();
+            <Seq<Self> as ComplementMut>::comp(&mut t);
+            let mut u = s.clone();
+            via_trait_comp(&mut u);
             s.comp();
+            assert!(same_codes(&t, s) && same_codes(&u, s), "Seq::comp: method call and trait call differ");
             true
         }
         fn seq_revcomp(s: &mut Seq<Self>) -> bool {
+            let mut t = s.clone();
+            <Seq<Self> as ReverseComplementMut>::revcomp(&mut t);
             s.revcomp();
+            assert!(same_codes(&t, s), "Seq::revcomp: method call and trait call differ");
             true
         }
         fn slice_to_comp(s: &SeqSlice<Self>) -> Option<Seq<Self>> {
-            Some(s.to_comp())
+            let a = s.to_comp();
+            let b = <SeqSlice<Self> as Complement>::to_comp(s);
+            assert!(same_codes(&a, &b), "SeqSlice::to_comp: method call and trait call differ");
+            Some(a)
         }
         fn slice_to_revcomp(s: &SeqSlice<Self>) -> Option<Seq<Self>> {
-            Some(s.to_revcomp())
+            let a = s.to_revcomp();
+            let b = <SeqSlice<Self> as ReverseComplement>::to_revcomp(s);
+            assert!(same_codes(&a, &b), "SeqSlice::to_revcomp: method call and trait call differ");
+            Some(a)
         }
         fn seq_to_comp(s: &Seq<Self>) -> Option<Seq<Self>> {
-            Some(s.to_comp())
+            let a = s.to_comp();
+            let b = <Seq<Self> as Complement>::to_comp(s);
+            assert!(same_codes(&a, &b), "Seq::to_comp: method call and trait call differ");
+            Some(a)
         }
         fn seq_to_revcomp(s: &Seq<Self>) -> Option<Seq<Self>> {
-            Some(s.to_revcomp())
+            let a = s.to_revcomp();
+            let b = <Seq<Self> as ReverseComplement>::to_revcomp(s);
+            assert!(same_codes(&a, &b), "Seq::to_revcomp: method call and trait call differ");
+            Some(a)
         }
     };
 }
@@ -86,53 +133,95 @@ macro_rules! mask_impl {
         fn sym_mask(self) -> Option<Self> {
             let mut x = self;
             x.mask();
+            let mut y = self;
+            <Self as MaskableMut>::mask(&mut y);
+            assert!(x.to_bits() == y.to_bits(), "symbol mask: method call and trait call differ");
+            if let Some((m, _)) = self.sym_to_mask() {
+                assert!(m.to_bits() == x.to_bits(), "symbol to_mask differs from mask");
+            }
             Some(x)
         }
         fn sym_unmask(self) -> Option<Self> {
             let mut x = self;
             x.unmask();
+            let mut y = self;
+            <Self as MaskableMut>::unmask(&mut y);
+            assert!(x.to_bits() == y.to_bits(), "symbol unmask: method call and trait call differ");
+            if let Some((_, u)) = self.sym_to_mask() {
+                assert!(u.to_bits() == x.to_bits(), "symbol to_unmask differs from unmask");
+            }
             Some(x)
         }
         fn seq_mask(s: &mut Seq<Self>) -> bool {
+            let mut t = s.clone();
+            <Seq<Self> as MaskableMut>::mask(&mut t);
             s.mask();
+            assert!(same_codes(&t, s), "Seq::mask: method call and trait call differ");
             true
         }
         fn seq_unmask(s: &mut Seq<Self>) -> bool {
+            let mut t = s.clone();
+            <Seq<Self> as MaskableMut>::unmask(&mut t);
             s.unmask();
+            assert!(same_codes(&t, s), "Seq::unmask: method call and trait call differ");
             true
         }
         fn seq_to_mask(s: &Seq<Self>) -> Option<Seq<Self>> {
-            Some(s.to_mask())
+            let a = s.to_mask();
+            let b = <Seq<Self> as Maskable>::to_mask(s);
+            assert!(same_codes(&a, &b), "Seq::to_mask: method call and trait call differ");
+            Some(a)
         }
         fn seq_to_unmask(s: &Seq<Self>) -> Option<Seq<Self>> {
-            Some(s.to_unmask())
+            let a = s.to_unmask();
+            let b = <Seq<Self> as Maskable>::to_unmask(s);
+            assert!(same_codes(&a, &b), "Seq::to_unmask: method call and trait call differ");
+            Some(a)
         }
     };
 }
 
 impl VC for Dna {
+    fn sym_to_comp(self) -> Option<Self> {
+        Some(<Self as Complement>::to_comp(&self))
+    }
     const NAME: &'static str = "dna";
     const HAS_COMP: bool = true;
     const HAS_MASK: bool = false;
     comp_impl!();
 }
 impl VC for Iupac {
+    fn sym_to_comp(self) -> Option<Self> {
+        Some(<Self as Complement>::to_comp(&self))
+    }
+    fn sym_into_u8(self) -> Option<u8> {
+        Some(u8::from(self))
+    }
     const NAME: &'static str = "iupac";
     const HAS_COMP: bool = true;
     const HAS_MASK: bool = false;
     comp_impl!();
 }
 impl VC for Amino {
+    fn sym_into_u8(self) -> Option<u8> {
+        Some(u8::from(self))
+    }
     const NAME: &'static str = "amino";
     const HAS_COMP: bool = false;
     const HAS_MASK: bool = false;
 }
 impl VC for text::Dna {
+    fn sym_into_u8(self) -> Option<u8> {
+        Some(u8::from(self))
+    }
     const NAME: &'static str = "text";
     const HAS_COMP: bool = false;
     const HAS_MASK: bool = false;
 }
 impl VC for masked::Dna {
+    fn sym_to_comp(self) -> Option<Self> {
+        Some(<Self as Complement>::to_comp(&self))
+    }
     const NAME: &'static str = "mdna";
     const HAS_COMP: bool = true;
     const HAS_MASK: bool = true;
@@ -140,6 +229,9 @@ impl VC for masked::Dna {
     mask_impl!();
 }
 impl VC for masked::Iupac {
+    fn sym_to_mask(self) -> Option<(Self, Self)> {
+        Some((<Self as Maskable>::to_mask(&self), <Self as Maskable>::to_unmask(&self)))
+    }
     const NAME: &'static str = "miupac";
     const HAS_COMP: bool = true;
     const HAS_MASK: bool = true;
